@@ -604,7 +604,10 @@ class Evaluator:
             it = self.expr(gen.iter)
             self.assign(gen.target, ("iter", it), gen)
             self.cond = self.cond + ((("inloop", it), True),)
-            conds = tuple(self.expr(i) for i in gen.ifs)
+            # filters in a flat normal form: conjunctions split, negations pushed to the
+            # atoms (`if a and not (b or c)` == `if a if not b if not c`)
+            conds = tuple(a_ if p_ else not_(a_)
+                          for i in gen.ifs for a_, p_ in pcs(self.expr(i), True))
             gens.append((self._target_term(gen.target), it, conds))
         elt = tuple(self.expr(x) for x in elts)
         self.env.vars = saved
@@ -811,7 +814,12 @@ class Evaluator:
                     and not any(isinstance(x, (ast.Continue, ast.Break))
                                 for b in st.body[:-1] for x in ast.walk(b)):
                 rest = Evaluator._continue_guards(list(stmts[i + 1:]))
-                new = ast.If(test=st.test, body=list(st.body[:-1]) or [ast.Pass()], orelse=rest)
+                if len(st.body) == 1:
+                    # a bare guard: `if c: continue` + R  ==  `if not c: R`
+                    new = ast.If(test=ast.UnaryOp(op=ast.Not(), operand=st.test), body=rest,
+                                 orelse=[])
+                else:
+                    new = ast.If(test=st.test, body=list(st.body[:-1]), orelse=rest)
                 ast.copy_location(new, st)
                 ast.fix_missing_locations(new)
                 return list(stmts[:i]) + [new]
@@ -1048,7 +1056,7 @@ class Evaluator:
         `[e for t in it if c]`: (name, element ast, condition asts) or None."""
         if st.orelse:
             return None
-        body, conds = st.body, []
+        body, conds = self._continue_guards(list(st.body)), []
         while len(body) == 1 and isinstance(body[0], ast.If) and not body[0].orelse:
             conds.append(body[0].test)
             body = body[0].body
